@@ -6,6 +6,8 @@ CONSTANTS
   AliasTargets = {1,2,3}
   MaxNum = 2
   MaxOps = 7
+  Order <- OrderReal
+  Jumps = TRUE
 VIEW View
 INVARIANT Inv
 PROPERTY StepProp
